@@ -116,7 +116,7 @@ func c19LatOne(c *core.Ctx, dir string, k c19LatPayload, verbose bool) string {
 	}
 	env := drv.New(dir)
 	defer env.Close()
-	class := k.Source + ":" + k.Consumer
+	class := k.Source // the signature class: which consumer meets the table first is not another defect
 	outcome := "ok"
 	failed := false
 	c19ExtExec(env, sql, func(i int, r c19ExtResult) {
